@@ -19,7 +19,14 @@
 (* TRUE every task has a FIFO store buffer for plain stores (x86-TSO) that  *)
 (* its own loads snoop.  A Go function call (CALL) clobbers every register. *)
 (*                                                                          *)
-(* Instruction = [op, d, s, v, to] :                                         *)
+(* Memory = the 4-byte lock word `state` followed by 4 neighbour bytes `nb`  *)
+(* (whatever the enclosing struct keeps behind the lock: a non-zero datum    *)
+(* Nb0, or - EnvNb - another lock that the environment takes and releases).  *)
+(* Every instruction carries its operand width w in bytes: an L instruction  *)
+(* touches the lock word, a Q instruction the lock word AND the neighbour,   *)
+(* B/W the low bytes of the lock word.  An 8-byte value is lo + 1000 * hi.   *)
+(*                                                                          *)
+(* Instruction = [op, d, s, v, to, w] :                                      *)
 (*   ldstate d      d := address of the lock word (argument state+0(FP))     *)
 (*   ldatt d        d := attemptsBeforeYielding (argument +8(FP))            *)
 (*   ldyield d      d := value of the package variable yieldFn               *)
@@ -29,6 +36,8 @@
 (*   storei d v     mem[d] := v                                              *)
 (*   xchg d s       atomically swap register d and mem[s]                    *)
 (*   test d         Z := (d = 0)      cmpi d v   Z := (d = v)    setz v      *)
+(*   cmpm s v       Z := (mem[s] = v) (w bytes compared)                     *)
+(*   gadd d v       d := atomic.AddUint32(&l.state, v)                       *)
 (*   dec d / inc d  d := d -/+ 1 (mod CMod), Z := (d = 0)                    *)
 (*   jz to / jnz to / jmp to          nop                                    *)
 (*   call s         call the function s points to (s must be yieldFn # nil)  *)
@@ -45,6 +54,8 @@ CONSTANTS Tasks, MaxOps,
           Prog, EntryAcq, EntryTry, EntryRel,
           YieldSet,        \* is yieldFn non-nil (TRUE in hosted tests, FALSE in the kernel today)
           TSO,             \* model per-task store buffers
+          Nb0,             \* initial value of the 4 bytes that follow the lock word
+          EnvNb,           \* the neighbour is another lock, taken and released by the environment at any time
           RelPlain,        \* leg M variant: Release is the plain store  l.state = 0  instead of the extracted body
           Bug              \* design mutants of the interpreter (leg M): "none" | "XchgNotAtomic" | "BufferNotFifo"
 
@@ -52,6 +63,8 @@ PTR == 100   YIELD == 101   UNDEF == 0 - 1   CMod == 4
 NoRegs == [AX |-> UNDEF, BX |-> UNDEF, CX |-> UNDEF, ATT |-> 0, RET |-> 0, Z |-> FALSE]
 
 VARIABLES state,     \* the lock word in memory
+          nb,        \* the 4 bytes behind it
+          nbenv,     \* what the environment last wrote there (history)
           counter,   \* the protected datum in memory
           buf,       \* task -> store buffer: sequence of <<location, value>>, oldest first
           pc,        \* task -> 0 idle | 1..Len(Prog) next instruction | -1 in the critical section
@@ -62,31 +75,47 @@ VARIABLES state,     \* the lock word in memory
           done,      \* completed critical sections
           nops,      \* task -> calls made
           wild       \* an instruction used a register / a return in a way the interpreter cannot justify
-vars == <<state, counter, buf, pc, cur, hold, reg, tmp, done, nops, wild>>
+vars == <<state, nb, nbenv, counter, buf, pc, cur, hold, reg, tmp, done, nops, wild>>
 
-Init == /\ state = 0 /\ counter = 0 /\ buf = [t \in Tasks |-> <<>>]
+Init == /\ state = 0 /\ nb = Nb0 /\ nbenv = Nb0 /\ counter = 0 /\ buf = [t \in Tasks |-> <<>>]
         /\ pc = [t \in Tasks |-> 0] /\ cur = [t \in Tasks |-> "acq"] /\ hold = [t \in Tasks |-> FALSE]
         /\ reg = [t \in Tasks |-> NoRegs]
         /\ tmp = [t \in Tasks |-> 0] /\ done = 0 /\ nops = [t \in Tasks |-> 0] /\ wild = <<>>
 
 ---------------------------------------------------------------------------
 (* memory *)
-Mem(loc) == IF loc = "state" THEN state ELSE counter
+Mem(loc) == IF loc = "state" THEN state ELSE IF loc = "nb" THEN nb ELSE counter
+Wide(lo, hi) == lo + 1000 * hi                    \* an 8-byte value
+Lo(v) == IF v >= 500 THEN v % 1000 ELSE v         \* its low 4 bytes (lock words stay far below 500)
+Cut(v, w) == IF w = 1 THEN v % 256 ELSE IF w = 2 THEN v % 65536 ELSE v
 RECURSIVE Newest(_, _, _)
 Newest(b, loc, i) == IF i = 0 THEN <<>> ELSE IF b[i][1] = loc THEN <<b[i][2]>> ELSE Newest(b, loc, i - 1)
 \* newest value of loc in t's own buffer, else memory
 Read(t, loc) == LET n == Newest(buf[t], loc, Len(buf[t])) IN IF n = <<>> THEN Mem(loc) ELSE n[1]
+\* a w-byte read at the address of the lock word
+ReadW(t, w) == IF w = 8 THEN Wide(Read(t, "state"), Read(t, "nb")) ELSE Cut(Read(t, "state"), w)
+\* the lock word after a w-byte write of v at its address (B/W keep the upper bytes)
+Merge(old, v, w) == IF w = 1 THEN old - (old % 256) + v ELSE IF w = 2 THEN old - (old % 65536) + v ELSE v
 PlainStore(t, loc, v) ==
-  IF TSO THEN /\ buf' = [buf EXCEPT ![t] = Append(@, <<loc, v>>)] /\ UNCHANGED <<state, counter>>
-  ELSE /\ UNCHANGED buf
+  IF TSO THEN /\ buf' = [buf EXCEPT ![t] = Append(@, <<loc, v>>)] /\ UNCHANGED <<state, nb, counter>>
+  ELSE /\ UNCHANGED <<buf, nb>>
        /\ IF loc = "state" THEN state' = v /\ UNCHANGED counter ELSE counter' = v /\ UNCHANGED state
+\* a plain w-byte store of v at the address of the lock word (8 bytes: the neighbour gets the high half, 0)
+StoreW(t, v, w) ==
+  IF w # 8 THEN PlainStore(t, "state", Merge(Read(t, "state"), v, w))
+  ELSE IF TSO THEN /\ buf' = [buf EXCEPT ![t] = Append(Append(@, <<"state", v>>), <<"nb", 0>>)] /\ UNCHANGED <<state, nb, counter>>
+  ELSE state' = v /\ nb' = 0 /\ UNCHANGED <<buf, counter>>
 Drained(t) == buf[t] = <<>>
 Drain(t) == /\ TSO /\ buf[t] # <<>>
             /\ \E i \in (IF Bug = "BufferNotFifo" THEN 1..Len(buf[t]) ELSE {1}) :
                  /\ buf' = [buf EXCEPT ![t] = SubSeq(@, 1, i - 1) \o SubSeq(@, i + 1, Len(@))]
-                 /\ IF buf[t][i][1] = "state" THEN state' = buf[t][i][2] /\ UNCHANGED counter
-                    ELSE counter' = buf[t][i][2] /\ UNCHANGED state
-            /\ UNCHANGED <<pc, cur, hold, reg, tmp, done, nops, wild>>
+                 /\ IF buf[t][i][1] = "state" THEN state' = buf[t][i][2] /\ UNCHANGED <<counter, nb>>
+                    ELSE IF buf[t][i][1] = "nb" THEN nb' = buf[t][i][2] /\ UNCHANGED <<counter, state>>
+                    ELSE counter' = buf[t][i][2] /\ UNCHANGED <<state, nb>>
+            /\ UNCHANGED <<nbenv, pc, cur, hold, reg, tmp, done, nops, wild>>
+\* the environment takes / releases the lock that lives in the neighbour bytes
+Env == /\ EnvNb /\ nb \in {0, 1} /\ nb' = 1 - nb /\ nbenv' = 1 - nb
+       /\ UNCHANGED <<state, counter, buf, pc, cur, hold, reg, tmp, done, nops, wild>>
 
 ---------------------------------------------------------------------------
 (* calls *)
@@ -94,33 +123,35 @@ Enter(t, entry, what) == /\ pc' = [pc EXCEPT ![t] = entry] /\ cur' = [cur EXCEPT
                          /\ reg' = [reg EXCEPT ![t] = NoRegs]
 CallAcquire(t) == /\ EntryAcq > 0 /\ pc[t] = 0 /\ nops[t] < MaxOps
                   /\ Enter(t, EntryAcq, "acq") /\ nops' = [nops EXCEPT ![t] = @ + 1]
-                  /\ UNCHANGED <<state, counter, buf, hold, tmp, done, wild>>
+                  /\ UNCHANGED <<state, nb, nbenv, counter, buf, hold, tmp, done, wild>>
 CallTry(t) == /\ EntryTry > 0 /\ pc[t] = 0 /\ nops[t] < MaxOps
               /\ Enter(t, EntryTry, "try") /\ nops' = [nops EXCEPT ![t] = @ + 1]
-              /\ UNCHANGED <<state, counter, buf, hold, tmp, done, wild>>
+              /\ UNCHANGED <<state, nb, nbenv, counter, buf, hold, tmp, done, wild>>
 \* the holder writes the datum (a plain store) and calls Release
 RelEntry == IF RelPlain THEN Len(Prog) + 1 ELSE EntryRel
 CallRelease(t) == /\ pc[t] = 0 - 1 /\ RelEntry > 0
                   /\ PlainStore(t, "counter", tmp[t] + 1)
                   /\ Enter(t, RelEntry, "rel") /\ hold' = [hold EXCEPT ![t] = TRUE]
-                  /\ UNCHANGED <<tmp, done, nops, wild>>
+                  /\ UNCHANGED <<nbenv, tmp, done, nops, wild>>
 \* leg M variant RelPlain: Release == l.state = 0 ; return
 PlainRel(t) == /\ RelPlain /\ cur[t] = "rel" /\ pc[t] \in {Len(Prog) + 1, Len(Prog) + 2}
                /\ IF pc[t] = Len(Prog) + 1
                   THEN /\ PlainStore(t, "state", 0) /\ pc' = [pc EXCEPT ![t] = @ + 1]
                        /\ hold' = [hold EXCEPT ![t] = FALSE] /\ UNCHANGED done
-                  ELSE /\ pc' = [pc EXCEPT ![t] = 0] /\ done' = done + 1 /\ UNCHANGED <<state, counter, buf, hold>>
-               /\ UNCHANGED <<cur, reg, tmp, nops, wild>>
+                  ELSE /\ pc' = [pc EXCEPT ![t] = 0] /\ done' = done + 1 /\ UNCHANGED <<state, nb, counter, buf, hold>>
+               /\ UNCHANGED <<nbenv, cur, reg, tmp, nops, wild>>
 
 Goto(t, n) == pc' = [pc EXCEPT ![t] = n]
 SetReg(t, r, v) == reg' = [reg EXCEPT ![t][r] = v]
 Bad(t, why) == wild' = IF wild = <<>> THEN <<t, pc[t], why>> ELSE wild
 Good == UNCHANGED wild
-Same == UNCHANGED <<state, counter, buf>>
+Same == UNCHANGED <<state, nb, counter, buf>>
 \* a store to the lock word inside Release gives the lock up
 Gives(t) == hold' = [hold EXCEPT ![t] = IF cur[t] = "rel" THEN FALSE ELSE @]
 Keeps == UNCHANGED hold
 Small(v) == v \in 0..CMod
+\* register contents as an instruction of width w sees them
+RegW(v, w) == IF w = 8 THEN v ELSE Lo(v)
 
 Step(t) ==
   /\ pc[t] \in 1..Len(Prog)
@@ -130,38 +161,45 @@ Step(t) ==
        [] i.op = "ldatt"   -> Goto(t, n) /\ SetReg(t, i.d, r.ATT % CMod) /\ Good /\ Same /\ Keeps
        [] i.op = "ldyield" -> Goto(t, n) /\ SetReg(t, i.d, IF YieldSet THEN YIELD ELSE 0) /\ Good /\ Same /\ Keeps
        [] i.op = "movi"    -> Goto(t, n) /\ SetReg(t, i.d, i.v) /\ Good /\ Same /\ Keeps
-       [] i.op = "movr"    -> Goto(t, n) /\ SetReg(t, i.d, r[i.s]) /\ Good /\ Same /\ Keeps
+       [] i.op = "movr"    -> Goto(t, n) /\ SetReg(t, i.d, RegW(r[i.s], i.w)) /\ Good /\ Same /\ Keeps
        [] i.op = "setz"    -> Goto(t, n) /\ reg' = [reg EXCEPT ![t].Z = (i.v = 1)] /\ Good /\ Same /\ Keeps
        [] i.op = "load"    -> /\ Goto(t, n) /\ Same /\ Keeps
-                              /\ IF r[i.s] = PTR THEN SetReg(t, i.d, Read(t, "state")) /\ Good
+                              /\ IF r[i.s] = PTR THEN SetReg(t, i.d, ReadW(t, i.w)) /\ Good
                                  ELSE SetReg(t, i.d, UNDEF) /\ Bad(t, "load through a register that does not hold the lock address")
        [] i.op = "gload"   -> Goto(t, n) /\ SetReg(t, i.d, Read(t, "state")) /\ Good /\ Same /\ Keeps
        [] i.op \in {"store", "storei"} ->
                               /\ Goto(t, n) /\ UNCHANGED reg
-                              /\ IF r[i.d] = PTR /\ (i.op = "storei" \/ Small(r[i.s]))
-                                 THEN PlainStore(t, "state", IF i.op = "storei" THEN i.v ELSE r[i.s]) /\ Good /\ Gives(t)
+                              /\ IF r[i.d] = PTR /\ (i.op = "storei" \/ Small(RegW(r[i.s], i.w)))
+                                 THEN StoreW(t, IF i.op = "storei" THEN i.v ELSE RegW(r[i.s], i.w), i.w) /\ Good /\ Gives(t)
                                  ELSE Same /\ Keeps /\ Bad(t, "store through a register that does not hold the lock address")
        [] i.op = "gstore"  -> Goto(t, n) /\ UNCHANGED reg /\ PlainStore(t, "state", i.v) /\ Good /\ Gives(t)
-       [] i.op = "gastore" -> /\ Drained(t) /\ Goto(t, n) /\ UNCHANGED <<reg, counter, buf>> /\ state' = i.v /\ Good /\ Gives(t)
+       [] i.op = "gastore" -> /\ Drained(t) /\ Goto(t, n) /\ UNCHANGED <<reg, nb, counter, buf>> /\ state' = i.v /\ Good /\ Gives(t)
        [] i.op = "gswap"   -> /\ Drained(t) /\ Goto(t, n) /\ SetReg(t, i.d, state) /\ state' = i.v
-                              /\ UNCHANGED <<counter, buf>> /\ Good /\ Gives(t)
+                              /\ UNCHANGED <<nb, counter, buf>> /\ Good /\ Gives(t)
+       [] i.op = "gadd"    -> /\ Drained(t) /\ Goto(t, n) /\ SetReg(t, i.d, state + i.v) /\ state' = state + i.v
+                              /\ UNCHANGED <<nb, counter, buf>> /\ Good /\ Gives(t)
        [] i.op = "gcas"    -> /\ Drained(t) /\ Goto(t, n) /\ reg' = [reg EXCEPT ![t].Z = (state = i.v)]
                               /\ state' = IF state = i.v THEN i.to ELSE state
-                              /\ UNCHANGED <<counter, buf>> /\ Good /\ (IF state = i.v THEN Gives(t) ELSE Keeps)
-       [] i.op = "xchg"    -> IF r[i.s] = PTR /\ Small(r[i.d])
+                              /\ UNCHANGED <<nb, counter, buf>> /\ Good /\ (IF state = i.v THEN Gives(t) ELSE Keeps)
+       [] i.op = "xchg"    -> IF r[i.s] = PTR /\ Small(RegW(r[i.d], i.w))
                               THEN IF Bug = "XchgNotAtomic"            \* design mutant: read now, write at the next step
                                    THEN /\ pc' = [pc EXCEPT ![t] = 0 - (1000 + pc[t])] /\ SetReg(t, i.d, Read(t, "state"))
                                         /\ Good /\ Same /\ Keeps
-                                   ELSE /\ Drained(t) /\ Goto(t, n) /\ SetReg(t, i.d, state) /\ state' = r[i.d]
+                                   ELSE /\ Drained(t) /\ Goto(t, n) /\ state' = RegW(r[i.d], i.w)
+                                        /\ IF i.w = 8 THEN SetReg(t, i.d, Wide(state, nb)) /\ nb' = 0     \* the neighbour is swapped too
+                                           ELSE SetReg(t, i.d, state) /\ UNCHANGED nb
                                         /\ Good /\ UNCHANGED <<counter, buf>> /\ Gives(t)
                               ELSE Goto(t, n) /\ SetReg(t, i.d, UNDEF) /\ Same /\ Keeps
                                    /\ Bad(t, "xchg operands are not (value register, lock address)")
        [] i.op = "test"    -> /\ Goto(t, n) /\ Same /\ Keeps
-                              /\ reg' = [reg EXCEPT ![t].Z = (r[i.d] = 0)]
+                              /\ reg' = [reg EXCEPT ![t].Z = (RegW(r[i.d], i.w) = 0)]
                               /\ IF r[i.d] = UNDEF THEN Bad(t, "test of an undefined register") ELSE Good
        [] i.op = "cmpi"    -> /\ Goto(t, n) /\ Same /\ Keeps
-                              /\ reg' = [reg EXCEPT ![t].Z = (r[i.d] = i.v)]
+                              /\ reg' = [reg EXCEPT ![t].Z = (RegW(r[i.d], i.w) = i.v)]
                               /\ IF r[i.d] = UNDEF THEN Bad(t, "compare of an undefined register") ELSE Good
+       [] i.op = "cmpm"    -> /\ Goto(t, n) /\ Same /\ Keeps
+                              /\ reg' = [reg EXCEPT ![t].Z = (ReadW(t, i.w) = i.v)]
+                              /\ IF r[i.s] = PTR THEN Good ELSE Bad(t, "compare through a register that does not hold the lock address")
        [] i.op \in {"dec", "inc"} ->     \* a register clobbered by CALL holds an arbitrary count
                               \E v0 \in (IF r[i.d] = UNDEF THEN 0..(CMod - 1) ELSE {r[i.d]}) :
                               LET v == (v0 + (IF i.op = "dec" THEN CMod - 1 ELSE 1)) % CMod IN
@@ -188,15 +226,15 @@ Step(t) ==
           ELSE IF i.op = "xchg" /\ Bug = "XchgNotAtomic" THEN tmp' = [tmp EXCEPT ![t] = reg[t][i.d]]
           ELSE UNCHANGED tmp
        /\ done' = IF i.op = "ret" /\ cur[t] = "rel" /\ reg[t].RET = 0 THEN done + 1 ELSE done
-  /\ UNCHANGED <<cur, nops>>
+  /\ UNCHANGED <<nbenv, cur, nops>>
 
 \* second half of the non-atomic exchange of design mutant XchgNotAtomic
 XchgWrite(t) == /\ pc[t] < 0 - 1000
                 /\ state' = tmp[t] /\ pc' = [pc EXCEPT ![t] = (0 - pc[t]) - 1000 + 1]
-                /\ UNCHANGED <<counter, buf, cur, hold, reg, tmp, done, nops, wild>>
+                /\ UNCHANGED <<nb, nbenv, counter, buf, cur, hold, reg, tmp, done, nops, wild>>
 
 Proceed(t) == Step(t) \/ XchgWrite(t) \/ CallRelease(t) \/ PlainRel(t) \/ Drain(t)
-Next == \E t \in Tasks : CallAcquire(t) \/ CallTry(t) \/ Proceed(t)
+Next == (\E t \in Tasks : CallAcquire(t) \/ CallTry(t) \/ Proceed(t)) \/ Env
 Spec == Init /\ [][Next]_vars /\ \A t \in Tasks : WF_vars(Proceed(t))
 
 ---------------------------------------------------------------------------
@@ -212,6 +250,8 @@ FreeWhenIdle == (\A t \in Tasks : pc[t] = 0 /\ buf[t] = <<>>) => state = 0
 \* no update of the protected datum is lost: the work of one holder is visible to the next
 Visibility == (\A t \in Tasks : buf[t] = <<>>) => counter = done + Cardinality({t \in Tasks : InRelease(t)})
 EntrySeesAll == \A t \in Tasks : pc[t] = 0 - 1 => tmp[t] = done + Cardinality({u \in Tasks : InRelease(u)})
+\* lock operations never modify the bytes that follow the lock word
+NeighbourIntact == (\A t \in Tasks : buf[t] = <<>>) => nb = nbenv
 \* every register use and every return of the extracted code is justified
 NoWildAccess == wild = <<>>
 \* after a release the lock can be taken again: a blocking acquire returns once the competitors stop
